@@ -47,7 +47,7 @@ func takeSnapshot(s tally.Snapshot, keepRaw bool) *SnapCopy {
 			e.HasHV = true
 			e.HV = map[uint64]int64{}
 			for b, n := range hv {
-				e.HV[f64bits(b)] = n
+				e.HV[f64bits(b+0)] += n
 			}
 		}
 		if hd := v.Durations(); hd != nil {
